@@ -10,6 +10,7 @@ import (
 	"context"
 	"errors"
 	"strconv"
+	"sync"
 
 	appsv1 "k8s.io/api/apps/v1"
 	corev1 "k8s.io/api/core/v1"
@@ -57,11 +58,21 @@ type Client struct {
 	// engine for an arbitrary fault: rejected, or applied-but-answer-lost.
 	InjectFaults     bool
 	InjectReadFaults bool
+	// FaultOnly, when set, restricts InjectFaults to the writes it accepts (verb, kind, name);
+	// every other write succeeds.  Used to afford large batches: one symbolic failing position.
+	FaultOnly func(verb, kind, name, node string) bool
+	// FaultForce, when non-zero, is the fate (1 rejected, 2 applied-but-lost) of every write
+	// FaultOnly accepts, instead of an arbitrary one.
+	FaultForce int
 	// GracefulPodDelete: deleting a pod sets deletionTimestamp instead of removing it.
 	GracefulPodDelete bool
 
 	gen    int
 	scheme *runtime.Scheme
+	// mu makes every client call atomic: natively the controllers call the client from parallel
+	// goroutines (createPods / deletePods / deletePodSlice); the engine runs them one after the
+	// other and treats the mutex as a no-op.
+	mu sync.Mutex
 }
 
 var _ client.Client = &Client{}
@@ -156,6 +167,15 @@ func (c *Client) fault() int {
 	if !c.InjectFaults {
 		return 0
 	}
+	if c.FaultOnly != nil && len(c.Log) > 0 {
+		last := c.Log[len(c.Log)-1]
+		if !c.FaultOnly(last.Verb, last.Kind, last.Name, last.Node) {
+			return 0
+		}
+		if c.FaultForce != 0 {
+			return c.FaultForce
+		}
+	}
 	if !nondet.Bool("api.fail") {
 		return 0
 	}
@@ -172,6 +192,8 @@ func notFound(kind, name string) error {
 // ---- Reader -----------------------------------------------------------------------
 
 func (c *Client) Get(ctx context.Context, key client.ObjectKey, obj client.Object, opts ...client.GetOption) error {
+	c.mu.Lock()
+	defer c.mu.Unlock()
 	e := Call{Verb: "get", Kind: kindOf(obj), Namespace: key.Namespace, Name: key.Name}
 	if c.InjectReadFaults && nondet.Bool("api.readfail") {
 		e.Failed = true
@@ -246,6 +268,8 @@ func selected(lo *client.ListOptions, namespaced bool, ns string, lbls map[strin
 }
 
 func (c *Client) List(ctx context.Context, list client.ObjectList, opts ...client.ListOption) error {
+	c.mu.Lock()
+	defer c.mu.Unlock()
 	e := Call{Verb: "list", Kind: kindOf(list)}
 	lo := &client.ListOptions{}
 	for _, o := range opts {
@@ -308,6 +332,8 @@ func (c *Client) nextName(generate string) string {
 }
 
 func (c *Client) Create(ctx context.Context, obj client.Object, opts ...client.CreateOption) error {
+	c.mu.Lock()
+	defer c.mu.Unlock()
 	e := c.logCall("create", obj)
 	f := c.fault()
 	if f == 1 {
@@ -358,6 +384,8 @@ func (c *Client) Create(ctx context.Context, obj client.Object, opts ...client.C
 }
 
 func (c *Client) Delete(ctx context.Context, obj client.Object, opts ...client.DeleteOption) error {
+	c.mu.Lock()
+	defer c.mu.Unlock()
 	e := c.logCall("delete", obj)
 	f := c.fault()
 	if f == 1 {
@@ -406,6 +434,8 @@ func (c *Client) Delete(ctx context.Context, obj client.Object, opts ...client.D
 // Update replaces metadata and spec and keeps the stored status (the status
 // subresource is enabled on the CRDs).
 func (c *Client) Update(ctx context.Context, obj client.Object, opts ...client.UpdateOption) error {
+	c.mu.Lock()
+	defer c.mu.Unlock()
 	e := c.logCall("update", obj)
 	f := c.fault()
 	if f == 1 {
@@ -497,6 +527,8 @@ func (c *Client) replace(obj client.Object, statusOnly bool) error {
 // Patch: the controllers only send merge patches computed against the object they
 // just read, so "replace metadata and spec, keep status" equals applying the patch.
 func (c *Client) Patch(ctx context.Context, obj client.Object, patch client.Patch, opts ...client.PatchOption) error {
+	c.mu.Lock()
+	defer c.mu.Unlock()
 	e := c.logCall("patch", obj)
 	f := c.fault()
 	if f == 1 {
@@ -529,6 +561,8 @@ func (s *statusWriter) Create(ctx context.Context, obj client.Object, sub client
 }
 
 func (s *statusWriter) Update(ctx context.Context, obj client.Object, opts ...client.SubResourceUpdateOption) error {
+	s.c.mu.Lock()
+	defer s.c.mu.Unlock()
 	e := s.c.logCall("status-update", obj)
 	f := s.c.fault()
 	if f == 1 {
